@@ -11,6 +11,8 @@ pub enum AccKind {
     Write,
     RmwRead,
     RmwWrite,
+    /// an instruction at a marked address was executed
+    Exec,
 }
 
 #[derive(Clone, Debug, PartialEq, Eq)]
@@ -79,6 +81,8 @@ pub struct Machine {
     pub max_events: usize,
     /// virtual mode: conditional branches carry a 16-bit absolute target (see AsmInput::wide_rel)
     pub wide_rel: bool,
+    /// addresses whose execution is logged as an Exec event (sorted)
+    pub pc_marks: Vec<u16>,
     cur_pc: u16,
     decode: Vec<Option<(&'static str, Mode, u8, bool)>>,
 }
@@ -124,6 +128,7 @@ impl Machine {
             br_not: [0; 256],
             max_events: 200_000,
             wide_rel: false,
+            pc_marks: vec![],
             cur_pc: 0,
             decode,
         }
@@ -284,6 +289,10 @@ impl Machine {
 
     pub fn step(&mut self) -> Result<(), String> {
         self.cur_pc = self.pc;
+        if !self.pc_marks.is_empty() && self.pc_marks.binary_search(&self.pc).is_ok() {
+            let pc = self.pc;
+            self.log(AccKind::Exec, pc, 0);
+        }
         let opc = self.fetch();
         let (mn, mode, base, pagex) = match self.decode[opc as usize] {
             Some(d) => d,
